@@ -1,4 +1,5 @@
 import ArrModel.C15
+import ArrModel.C15Ext
 import Driver.Proto
 /-!
 # Driver.C15 — model answers for `det`, `solve`, `norm`, `qr` (exact rationals as `num/den` text)
@@ -71,17 +72,30 @@ def parseVariant? (s : String) : Option (Rat × Rat) :=
 
 def scaleArr (s : Rat) (a : Arr Rat) : Arr Rat := ⟨a.elems.map (· * s), a.shape⟩
 
+/-- largest element count for which `normX` is evaluated next to the lane form -/
+def normXLimit : Nat := 300
+
 def handleNorm (a : Arr Rat) (ord axis keep : String) : Option String := do
   let ord ← parseOrdArg ord
   let axis ← parseOpt? parseIntList? axis
   let keep ← parseOpt? (fun s => if s == "true" then some true else if s == "false" then some false else none) keep
   match ord with
   | .ok o =>
-    -- negative orders of the vector arm go through `float_power` with a negative exponent: not modelled
-    let isNegInt := match o with | some (.int v) => decide (v < 0) | _ => false
-    let oneAxis := match axis with | some ax => ax.length == 1 | none => a.shape.length == 1
-    if isNegInt && oneAxis then some "open"
-    else some (showRes showSymArr (normArr a o axis (keep.getD false)))
+    -- `normX` (ArrModel/C15Ext.lean: the dispatch over the shared branch-faithful reductions, incl. negative vector
+    -- orders, arrays without elements, 0-d receivers) answers every case of at most `normXLimit` elements and every
+    -- case the lane forms (`normLane`: `normArr`, `normNegLane`) do not model.  Where both apply they must agree
+    -- (otherwise the answer is `model-disagree`, which no outcome of the crate matches).  Above the limit the lane form
+    -- answers alone (the moves of `apply_along_axis` are quadratic in the list model).
+    let kd := keep.getD false
+    match normLane a o axis kd with
+    | some lane =>
+      let y := showRes showSymArr lane
+      if a.elems.length ≤ normXLimit then
+        let x := showRes showSymArr (normX a o axis kd)
+        if x == y || (x.startsWith "err " && y.startsWith "err ") then some x
+        else some ("model-disagree normX: " ++ x ++ " lane form: " ++ y)
+      else some y
+    | none => some (showRes showSymArr (normX a o axis kd))
   | .err e => some ("err " ++ e.name)
   | .panic => some "panic"
 
